@@ -157,3 +157,40 @@ def config_field(e, *fields):
     if e[0] == "path" and e[1] == "config" and tuple(e[2]) == tuple(fields):
         return True
     return False
+
+
+def variant_switches(f, adts):
+    """Switches on the discriminant of a reply-enum value: list of
+    (bb, enum, {variant: target}, else_target, place_expr)."""
+    out = []
+    for i in sorted(f.reach):
+        t = f.b.blocks[i]["term"]
+        if t["t"] != "switch":
+            continue
+        v = f.tr.value(t["d"])
+        if v.kind != "rv" or v.rv["r"] != "discr":
+            continue
+        ty = v.rv["of"]
+        if not ty or ty.get("k") != "adt" or ty["n"] not in adts or adts[ty["n"]]["kind"] != "enum":
+            continue
+        adt = adts[ty["n"]]
+        names = {vv.get("discr", idx): vv["name"] for idx, vv in enumerate(adt["variants"])}
+        m = {}
+        for val, tb in t["targets"]:
+            m[names.get(val, "?%d" % val)] = tb
+        rest = [n for n in names.values() if n not in m]
+        out.append((i, ty["n"], m, t["else"], rest, f.ex.place(f.tr.nplace(v.rv["p"]))))
+    return out
+
+
+def follow(f, bb):
+    """Skip falseEdge / empty goto blocks."""
+    seen = set()
+    while bb not in seen:
+        seen.add(bb)
+        t = f.b.blocks[bb]["term"]
+        if t["t"] == "falseedge" or (t["t"] == "goto" and not f.b.blocks[bb]["stmts"]):
+            bb = t["to"]
+        else:
+            break
+    return bb
